@@ -152,6 +152,9 @@ def shard_main(argv):
     with open(specfile) as fh:
         job = json.load(fh)
     os.environ.setdefault(env.GUARD, "1")
+    from . import reach
+    if os.environ.get("NIXMON_REACH", "1") != "0":
+        reach.start(env.REPO)
     from .checks import load
     mod = load(check_id)
     ctx = Ctx(check_id, job["tier"], job["seed"], job["shard"], job["nshards"])
@@ -167,6 +170,7 @@ def shard_main(argv):
         else:
             ctx.harness_error("shard", exc)
     out = ctx.dump()
+    out["reach"] = reach.dump()
     try:
         import nixio
         out["nixio_file"] = nixio.__file__
